@@ -57,12 +57,122 @@ func corner() []input {
 				Gens: []pipe.Gen{{Name: "g1", CustomNew: custom, Steps: steps}}}, Together: [][]string{{"a", "b"}, {"b", "a"}}})
 		}
 	}
+	// no custom New and a registered prototype that comes from a constructor (non-nil map and pointer fields): a per-package
+	// instance copied from the prototype instead of a zero value would share them between the packages of the run
+	for _, alias := range []bool{false, true} {
+		out = append(out, input{Scenario: pipe.Scenario{Module: m, All: !alias, Base: "zz_generated",
+			Gens: []pipe.Gen{{Name: "g1", Proto: true, Alias: alias, Steps: steps}}}, Together: [][]string{{"a", "b"}, {"b", "a"}}})
+	}
 	// the same with references through the import tracker (a shared tracker would leak b's imports into a's file)
 	use := map[string]pipe.Step{"example.com/m/a T0": {Use: []string{"strings.Builder"}}, "example.com/m/a T1": {Body: "var X = 1\n"},
 		"example.com/m/b T0": {Use: []string{"bytes.Buffer", "example.com/m/a.T0"}}}
 	out = append(out, input{Scenario: pipe.Scenario{Module: m, All: true, Base: "zz_generated",
 		Gens: []pipe.Gen{{Name: "g1", Steps: use}}}, Together: [][]string{{"a", "b"}, {"b", "a"}}})
+	// import names that collide: o refers to a/util and b/util (-> util, butil), p only to b/util, q only to a/util;
+	// whatever name p's and q's tables pick alone they must pick next to o
+	on := []string{"g1"}
+	cm := pipe.Module{ModPath: "example.com/m", GoVer: "1.22", Pkgs: []pipe.Pkg{
+		{Dir: "a/util", Name: "util", Types: []pipe.Type{{Name: "A"}}},
+		{Dir: "b/util", Name: "util", Types: []pipe.Type{{Name: "B"}}},
+		{Dir: "o", Name: "o", Imports: []string{"a/util", "b/util"}, Types: []pipe.Type{{Name: "T", Enabled: on}}},
+		{Dir: "p", Name: "p", Imports: []string{"b/util"}, Types: []pipe.Type{{Name: "T", Enabled: on}}},
+		{Dir: "q", Name: "q", Imports: []string{"a/util"}, Types: []pipe.Type{{Name: "T", Enabled: on}}}}}
+	cuse := map[string]pipe.Step{
+		"example.com/m/o T": {Use: []string{"example.com/m/a/util.A", "example.com/m/b/util.B"}},
+		"example.com/m/p T": {Use: []string{"example.com/m/b/util.B"}},
+		"example.com/m/q T": {Use: []string{"example.com/m/a/util.A"}}}
+	out = append(out, input{Scenario: pipe.Scenario{Module: cm, All: false, Base: "zz_generated",
+		Gens: []pipe.Gen{{Name: "g1", Steps: cuse}}}, Together: [][]string{{"o", "p", "q"}, {"q", "p", "o"}, {"p", "q"}}})
 	return out
+}
+
+// collisions draws a module in which several packages share their last path element(s), so that the import table has
+// to fall back to longer local names (util, butil, ...), and generators whose per-type renderings refer to random
+// subsets of them (and of colliding standard-library packages) through the import tracker.
+func collisions(r *core.RNG) pipe.Scenario {
+	var sc pipe.Scenario
+	sc.Base = "zz_generated"
+	sc.All = r.Chance(40)
+	m := &sc.Module
+	m.ModPath = core.Pick(r, []string{"example.com/m", "example.com/x/y"})
+	m.GoVer = "1.22"
+	leaf := core.Pick(r, []string{"util", "types", "v1", "template"})
+	parents := []string{"a", "b", "x/c"}
+	if r.Chance(30) {
+		parents = []string{"a", "b/a", "c/b/a"} // longer common suffixes: a/<leaf>, b/a/<leaf>, c/b/a/<leaf>
+	}
+	parents = parents[:2+r.Intn(2)]
+	var refs []string
+	var libDirs []string
+	for _, par := range parents {
+		d := par + "/" + leaf
+		libDirs = append(libDirs, d)
+		m.Pkgs = append(m.Pkgs, pipe.Pkg{Dir: d, Name: strings.ReplaceAll(leaf, "-", "_"), Types: []pipe.Type{{Name: "X"}}})
+		refs = append(refs, m.PkgPath(d)+".X")
+	}
+	std := [][]string{{"text/template.Template", "html/template.Template"}, {"math/rand.Rand", "crypto/rand.Reader"}, {"go/types.Type", "go/token.Pos"}}
+	if leaf == "template" || r.Chance(40) {
+		refs = append(refs, std[0]...)
+	}
+	if r.Chance(25) {
+		refs = append(refs, std[1]...)
+	}
+	users := []string{"o", "p", "q", "r"}[:2+r.Intn(3)]
+	if r.Chance(25) { // a user that sorts before the colliding packages
+		users[0] = "0first"
+	}
+	ngen := 1 + r.Intn(2)
+	names := []string{"g1", "g2"}[:ngen]
+	for _, name := range names {
+		sc.Gens = append(sc.Gens, pipe.Gen{Name: name, CustomNew: r.Chance(30), Proto: r.Chance(40), Steps: map[string]pipe.Step{}})
+	}
+	for ui, u := range users {
+		p := pipe.Pkg{Dir: u, Name: "u" + fmt.Sprint(ui)}
+		imported := map[string]bool{}
+		nt := 1 + r.Intn(2)
+		for k := 0; k < nt; k++ {
+			t := pipe.Type{Name: fmt.Sprintf("T%d", k)}
+			for gi, name := range names {
+				if k > 0 && !r.Chance(70) {
+					continue
+				}
+				t.Enabled = append(t.Enabled, name)
+				var st pipe.Step
+				switch q := r.Intn(10); {
+				case q < 3: // everything, in a random order
+					st.Use = append(st.Use, refs...)
+					for i := range st.Use {
+						j := i + r.Intn(len(st.Use)-i)
+						st.Use[i], st.Use[j] = st.Use[j], st.Use[i]
+					}
+				case q < 7: // a single one
+					st.Use = []string{core.Pick(r, refs)}
+				default:
+					for _, ref := range refs {
+						if r.Chance(50) {
+							st.Use = append(st.Use, ref)
+						}
+					}
+				}
+				if r.Chance(30) {
+					st.Count, st.Helper = r.Bool(), r.Bool()
+				}
+				for _, ref := range st.Use {
+					for _, d := range libDirs {
+						if strings.HasPrefix(ref, m.PkgPath(d)+".") && !imported[d] {
+							imported[d] = true
+							p.Imports = append(p.Imports, d)
+						}
+					}
+				}
+				sc.Gens[gi].Steps[m.PkgPath(u)+" "+t.Name] = st
+			}
+			p.Types = append(p.Types, t)
+		}
+		sort.Strings(p.Imports)
+		m.Pkgs = append(m.Pkgs, p)
+	}
+	return sc
 }
 
 func subsets(dirs []string) [][]string {
@@ -107,6 +217,9 @@ func (prop) Generate(r *core.RNG, tier string) []json.RawMessage {
 		sc.Entry = nil
 		imports := r.Chance(20)
 		for gi := range sc.Gens { // make the generators stateful
+			if !sc.Gens[gi].CustomNew && r.Chance(50) {
+				sc.Gens[gi].Proto = true
+			}
 			for k, st := range sc.Gens[gi].Steps {
 				if st.Res == "" && !strings.Contains(st.Body, "(\n") && r.Chance(70) {
 					st.Count = r.Chance(70)
@@ -125,29 +238,48 @@ func (prop) Generate(r *core.RNG, tier string) []json.RawMessage {
 		for _, p := range sc.Module.Pkgs {
 			dirs = append(dirs, p.Dir)
 		}
-		in := input{Scenario: sc}
-		subs := subsets(dirs)
-		if tier == "thorough" {
-			for _, s := range subs {
-				in.Together = append(in.Together, s)
-				if len(s) > 1 {
-					in.Together = append(in.Together, reversed(s))
-				}
-			}
-		} else {
-			in.Together = append(in.Together, dirs, reversed(dirs))
-			for k := 0; k < 2 && len(subs) > 1; k++ {
-				s := append([]string{}, subs[r.Intn(len(subs))]...)
-				for i := range s {
-					j := i + r.Intn(len(s)-i)
-					s[i], s[j] = s[j], s[i]
-				}
-				in.Together = append(in.Together, s)
+		out = append(out, enc(withRuns(r, sc, dirs, tier)))
+	}
+	nc := 8
+	if tier == "thorough" {
+		nc = 60
+	}
+	for i := 0; i < nc; i++ {
+		sc := collisions(r)
+		var users []string // the library packages have no tagged types: request the users only
+		for _, p := range sc.Module.Pkgs {
+			if len(p.Types) > 0 && len(p.Types[0].Enabled) > 0 {
+				users = append(users, p.Dir)
 			}
 		}
-		out = append(out, enc(in))
+		out = append(out, enc(withRuns(r, sc, users, tier)))
 	}
 	return out
+}
+
+// withRuns chooses the together-runs over the given package dirs.
+func withRuns(r *core.RNG, sc pipe.Scenario, dirs []string, tier string) input {
+	in := input{Scenario: sc}
+	subs := subsets(dirs)
+	if tier == "thorough" {
+		for _, s := range subs {
+			in.Together = append(in.Together, s)
+			if len(s) > 1 {
+				in.Together = append(in.Together, reversed(s))
+			}
+		}
+		return in
+	}
+	in.Together = append(in.Together, dirs, reversed(dirs))
+	for k := 0; k < 2 && len(subs) > 1; k++ {
+		s := append([]string{}, subs[r.Intn(len(subs))]...)
+		for i := range s {
+			j := i + r.Intn(len(s)-i)
+			s[i], s[j] = s[j], s[i]
+		}
+		in.Together = append(in.Together, s)
+	}
+	return in
 }
 
 type runObs struct {
@@ -225,7 +357,16 @@ func (prop) Run(raw json.RawMessage, scratch string) core.Result {
 	}
 	singles := map[string]*pipe.Observation{}
 	var singlePaths []string
+	requested := map[string]bool{}
+	for _, dirs := range in.Together {
+		for _, d := range dirs {
+			requested[d] = true
+		}
+	}
 	for _, p := range in.Module.Pkgs {
+		if !requested[p.Dir] { // never compared: only loaded (or processed under All) next to the requested ones
+			continue
+		}
 		o, ok := runOne([]string{p.Dir})
 		if !ok {
 			res.Tags = append(res.Tags, "run-failed-to-start")
@@ -312,6 +453,18 @@ func (prop) Run(raw json.RawMessage, scratch string) core.Result {
 			break
 		}
 	}
+	for _, g := range in.Gens {
+		if !g.CustomNew && g.Proto {
+			res.Tags = append(res.Tags, "reflect-New:prototype-with-map-and-pointer")
+			break
+		}
+	}
+	if localRefs, collide := importShape(in); localRefs {
+		res.Tags = append(res.Tags, "import-tracker:module-local-references")
+		if collide {
+			res.Tags = append(res.Tags, "import-tracker:colliding-names-in-one-file")
+		}
+	}
 	for _, o := range together {
 		if !done(o) {
 			res.Tags = append(res.Tags, "a-together-run-failed")
@@ -322,6 +475,30 @@ func (prop) Run(raw json.RawMessage, scratch string) core.Result {
 		res.Tags = append(res.Tags, "sum-present")
 	}
 	return res
+}
+
+// importShape: does a generator refer to packages of the module, and does one (package, generator) file refer to two
+// packages with the same last path element (so that the import table must rename one of them)?
+func importShape(in input) (localRefs, collide bool) {
+	for _, g := range in.Gens {
+		perPkg := map[string]map[string]string{} // package -> last element -> path
+		for k, st := range g.Steps {
+			pkg := k[:strings.Index(k, " ")]
+			for _, u := range st.Use {
+				path := u[:strings.LastIndex(u, ".")]
+				localRefs = localRefs || strings.HasPrefix(path, in.Module.ModPath+"/")
+				last := path[strings.LastIndex(path, "/")+1:]
+				if perPkg[pkg] == nil {
+					perPkg[pkg] = map[string]string{}
+				}
+				if prev, ok := perPkg[pkg][last]; ok && prev != path {
+					collide = true
+				}
+				perPkg[pkg][last] = path
+			}
+		}
+	}
+	return
 }
 
 func (prop) Shrink(raw json.RawMessage) []json.RawMessage {
@@ -345,6 +522,18 @@ func (prop) Shrink(raw json.RawMessage) []json.RawMessage {
 	}
 	sc := in.Scenario
 	sc.Entry = nil
+	for gi, g := range in.Gens {
+		for k, st := range g.Steps {
+			for ui := range st.Use {
+				var c input
+				_ = json.Unmarshal(raw, &c)
+				s2 := c.Gens[gi].Steps[k]
+				s2.Use = append(append([]string{}, st.Use[:ui]...), st.Use[ui+1:]...)
+				c.Gens[gi].Steps[k] = s2
+				out = append(out, enc(c))
+			}
+		}
+	}
 	for _, c := range pipe.ShrinkScenario(sc) {
 		ok := true
 		have := map[string]bool{}
@@ -353,6 +542,15 @@ func (prop) Shrink(raw json.RawMessage) []json.RawMessage {
 		}
 		for d := range used {
 			ok = ok && have[d]
+		}
+		for _, g := range c.Gens { // references stay references to packages that exist in the module
+			for _, st := range g.Steps {
+				for _, u := range st.Use {
+					if path := u[:strings.LastIndex(u, ".")]; strings.HasPrefix(path, c.Module.ModPath+"/") {
+						ok = ok && have[strings.TrimPrefix(path, c.Module.ModPath+"/")]
+					}
+				}
+			}
 		}
 		if ok {
 			out = append(out, enc(input{Scenario: c, Together: in.Together}))
